@@ -5,11 +5,29 @@
 (*   installed value is visited, lacks its own `child`, gets the default installed ... without end: fatal     *)
 (*   stack overflow in visitJSONObject (the process dies; the runner reports "crash").  The document passes   *)
 (*   document validation.                                                                                    *)
+(* F-C10-10: SchemaError.Error() ends      in panic(err) when encoding/json cannot encode the offending value (or schema): *)
+(*   a NaN or an infinity inside an array / object value (query q=NaN&q=1 against an array of numbers with maxItems 1;     *)
+(*   YAML .nan / .inf) makes ValidateRequest / ValidateResponse return an error whose Error() panics                       *)
+(*   ("json: unsupported value: NaN"), and with it RequestError.Error(), MultiError.Error(), DefaultErrorEncoder.           *)
+(*   Trigger: traffic carrying a NaN / infinity token; observation: only the reading of the returned error panics.         *)
 EXTENDS Sequences, FiniteSets
+SeqSet(q) == {q[i] : i \in DOMAIN q}
+NanTraffic(c) ==
+   LET named == {"body_yaml_nan", "query_nan_inf", "body_json_nan_token", "resp_body_nan_token"} IN
+   IF "kind" \in DOMAIN c /\ c.kind = "shape"
+   THEN c.value.n \in {"nan", "infinity", "yaml_nan"} \/ (SeqSet(c.murl) \cup SeqSet(c.mbody) \cup SeqSet(c.mrbody)) \cap named # {}
+   ELSE SeqSet(c.muts) \cap named # {}
+ErrorReaders == {"error_report", "middleware_lenient", "error_encoder"}
 Class(line, bad) ==
-   IF bad = {"returns_normally"} /\ "recursive_schema_default" \in {line.c.feats[i] : i \in DOMAIN line.c.feats}
-      /\ "validate_request" \in DOMAIN line.obs /\ line.obs["validate_request"] = "crash"
-      /\ \A s \in DOMAIN line.obs : line.obs[s] \notin {"panic", "hang"}
+   IF bad = {"returns_normally"} /\ NanTraffic(line.c)
+      /\ \A s \in DOMAIN line.obs : line.obs[s] \in {"panic", "hang", "crash"} => (s \in ErrorReaders /\ line.obs[s] = "panic")
+   THEN "schema_error_text_panics_on_unencodable_value"
+   ELSE
+   IF bad = {"returns_normally"} /\ "recursive_schema_default" \in (LET fs == IF "feats" \in DOMAIN line.c THEN line.c.feats ELSE line.c.feat IN {fs[i] : i \in DOMAIN fs})
+      (* the overflow is observed as the death of the process, or - on a machine so loaded that filling the maximal stack *)
+      (* takes longer than the watchdog allows - as the watchdog's "hang"; in both the call never returns               *)
+      /\ "validate_request" \in DOMAIN line.obs /\ line.obs["validate_request"] \in {"crash", "hang"}
+      /\ \A s \in DOMAIN line.obs : s # "validate_request" => line.obs[s] \notin {"panic", "hang", "crash"}
    THEN "recursive_default_injection_overflows"
    ELSE "none"
 =============================================================================
